@@ -22,7 +22,7 @@ static std::string gen_message(Rng &r, const Cfg &c, std::string &desc)
     int k = (int)r.below(12);
     if(k == 0) { int v = (int)r.range(-20, 150); rtosc_message(buf, sizeof buf, "/vol", "i", v); desc = fmt("/vol %d", v); }
     else if(k == 1) { int v = (int)r.range(-9, 9); rtosc_message(buf, sizeof buf, "/mid/x", "i", v); desc = fmt("/mid/x %d", v); }
-    else if(k == 2) { bool v = r.chance(0.5); rtosc_message(buf, sizeof buf, "/mid/en", v ? "T" : "F"); desc = fmt("/mid/en %s", v ? "T" : "F"); }
+    else if(k == 2) { bool v = r.chance(0.5); std::string a = "/mid/" + c.en_name; rtosc_message(buf, sizeof buf, a.c_str(), v ? "T" : "F"); desc = a + (v ? " T" : " F"); }
     else {
         const LeafCfg &L = c.leaf;
         std::string pre = prefixes[r.below(prefixes.size())];
@@ -84,12 +84,12 @@ static std::set<std::string> expected_lines(const Root &r, const Cfg &c)
 {
     std::set<std::string> e;
     if(r.vol != c.vol_def) e.insert("/vol");
-    if(r.mid.en != c.mid_en_def) e.insert("/mid/en");
+    if(r.mid.en != c.mid_en_def) e.insert("/mid/" + c.en_name);
     if(r.mid.x != c.mid_x_def) e.insert("/mid/x");
     if(leaf_enabled(r, c)) expect_leaf(r.mid.leaf, c.leaf, "/mid/leaf/", e);
     if(c.has_many) for(int i = 0; i < 3; ++i) expect_leaf(r.mid.many[i], c.leaf, fmt("/mid/many%d/", i), e);
     if(c.has_top) expect_leaf(r.top, c.leaf, "/top/", e);
-    if(c.has_ptr && r.mid.ptr) expect_leaf(*r.mid.ptr, c.leaf, "/mid/ptr/", e);
+    if(c.has_ptr && r.mid.ptr && (!c.ptr_gated || r.mid.en)) expect_leaf(*r.mid.ptr, c.leaf, "/mid/ptr/", e);
     return e;
 }
 
@@ -116,6 +116,7 @@ static void neutralise(Root &loaded, const Root &orig, const Cfg &c)
 {
     // state below a disabled sub-tree or a null pointer is not part of the savefile
     if(!leaf_enabled(orig, c)) loaded.mid.leaf = orig.mid.leaf;
+    if(c.ptr_gated && !orig.mid.en) loaded.ptr_target = orig.ptr_target;
     if(c.enable_placement == 2) {
         // what lies below a Leaf whose toggle is off is not saved (the toggle itself is)
         auto fix = [](Leaf &l, const Leaf &o) { if(!o.on) { bool on = l.on; l = o; l.on = on; } };
@@ -178,7 +179,7 @@ static std::string cfg_desc(const Cfg &c)
 {
     std::string s = "leaf ports:";
     for(auto &n : c.leaf.order) s += " " + n;
-    s += fmt(" | a_dep=%d b_dep=%d arr_dep=%d enable_placement=%d many=%d ptr=%d top=%d", c.leaf.a_depends, c.leaf.b_depends, c.leaf.arr_depends, c.enable_placement, c.has_many, c.has_ptr, c.has_top);
+    s += fmt(" | a_dep=%d b_dep=%d arr_dep=%d enable_placement=%d many=%d ptr=%d%s top=%d toggle=%s", c.leaf.a_depends, c.leaf.b_depends, c.leaf.arr_depends, c.enable_placement, c.has_many, c.has_ptr, c.ptr_gated ? "(gated)" : "", c.has_top, c.en_name.c_str());
     return s;
 }
 
